@@ -204,6 +204,11 @@ func Format(input []byte) []byte {
 			}
 			write(ch)
 			escaped = false
+			if ch == '\n' && !quoted {
+				// an escaped newline separates tokens like any other
+				// white space: a quote right after it opens a string
+				space = true
+			}
 			continue
 		}
 
